@@ -89,7 +89,10 @@ class TreeGen:
             branches.append(('/', None))
         n = rng.choice([0, 0, 1, 1, 2, 2, 3, 4, 5])
         for _ in range(n):
-            ro = role(rng) + self.al()
+            ro = role(rng)
+            if self.wf and ro.startswith(':instance'):
+                continue        # an explicit :instance role is a second way to write the concept
+            ro += self.al()
             k = rng.random()
             if k < 0.35 and self.budget > 0 and depth < 12:
                 tgt = self.node(depth + 1)
